@@ -20,6 +20,16 @@ Proof.
   destruct s; simpl; [now destruct d | apply IH].
 Qed.
 
+Lemma nth_error_firstn {A} (s : list A) k d :
+  nth_error (firstn k s) d = if d <? k then nth_error s d else None.
+Proof.
+  revert s d; induction k as [|k IH]; intros s d; simpl.
+  - now destruct d.
+  - destruct s as [|x s]; simpl.
+    + destruct (d <? S k); destruct d; reflexivity.
+    + destruct d; [reflexivity|]. cbn [nth_error]. rewrite IH. reflexivity.
+Qed.
+
 Lemma compat_nth t x d :
   compat t x = true -> d < length t -> d < length x -> nth_error x d = nth_error t d.
 Proof.
@@ -35,6 +45,15 @@ Proof.
   - apply prefixb_firstn in E. rewrite E. apply str_eqb_refl.
   - destruct (str_eqb_spec (firstn (length r) s) r) as [H|H]; [|reflexivity].
     apply prefixb_firstn in H. congruence.
+Qed.
+
+Lemma slice_suffix {A} (s : list A) start end_ i :
+  i <= end_ - start ->
+  slice s (start + (end_ - start - i)) end_ = skipn (end_ - start - i) (slice s start end_).
+Proof.
+  intros Hi. unfold slice.
+  replace (end_ - start) with ((end_ - start - i) + (end_ - (start + (end_ - start - i)))) at 2 by lia.
+  rewrite <- firstn_skipn_comm. now rewrite skipn_skipn.
 Qed.
 
 Section Tok.
@@ -168,15 +187,7 @@ Proof.
   (* suffix of the window = slice of s *)
   assert (Hsl : forall i, i <= end_ - start ->
             slice s (start + (end_ - start - i)) end_ = skipn (length w - i) w).
-  { intros i Hi. unfold w, slice. rewrite Lw.
-    rewrite <- (firstn_skipn (end_ - start - i) (firstn (end_ - start) (skipn start s))) at 2.
-    assert (length (firstn (end_ - start - i) (firstn (end_ - start) (skipn start s))) = end_ - start - i).
-    { rewrite !firstn_length, skipn_length. lia. }
-    rewrite skipn_app, H, Nat.sub_diag. simpl.
-    rewrite (skipn_all2 (firstn _ _)) by lia. simpl.
-    rewrite <- skipn_skipn. rewrite firstn_skipn_comm.
-    replace (end_ - start - i + (end_ - (start + (end_ - start - i)))) with (end_ - start) by lia.
-    reflexivity. }
+  { intros i Hi. rewrite Lw. unfold w. now apply slice_suffix. }
   unfold match_tail.
   destruct (nth_error s (end_ - 1)) as [c|] eqn:Ec.
   2:{ apply nth_error_None in Ec. lia. }
